@@ -33,6 +33,11 @@ Print Assumptions C06_info_warnings_are_first_assertions.
 (* ---- tie to the source text (GenFuncs.v is re-translated from /repo's validate.go on every run) ---- *)
 From V Require Import GenPrelude GenFuncs P_GenFuncs.
 Theorem C06_source_VerifyAssertionConditions_is_the_model : forall cfg now a,
-  G_VerifyAssertionConditions cfg now a = PVal (verify_conditions cfg now a).
+  G_VerifyAssertionConditions cfg now a = PVal (res_some (verify_conditions cfg now a)).
 Proof. exact G_VerifyAssertionConditions_eq. Qed.
 Print Assumptions C06_source_VerifyAssertionConditions_is_the_model.
+
+Theorem C06_source_RetrieveAssertionInfo_is_the_model : forall cfg now enc (v : res response),
+  G_RetrieveAssertionInfo cfg now enc (res_some v) = PVal (res_some (retrieve_info cfg now v)).
+Proof. exact G_RetrieveAssertionInfo_eq. Qed.
+Print Assumptions C06_source_RetrieveAssertionInfo_is_the_model.
